@@ -65,7 +65,15 @@ OUT4 = UDPv4Address("9.9.9.9", 99)
 OUT6 = UDPv6Address("2001:db8::9", 99)
 SRC4 = ("9.9.9.9", 99)
 SRC6 = ("2001:db8::9", 99, 0, 0)         # what asyncio hands to datagram_received on an IPv6 socket
-DIRS = ("out4", "out6", "in4", "in6")
+# an IPv4 host that reaches the dual-stack IPv6 socket: the kernel reports it as ::ffff:a.b.c.d; asyncio passes the
+# 4-tuple (host, port, flowinfo, scope id), the 2-tuple form is what a caller of the protocol by hand would pass
+SRC6_MAPPED = ("::ffff:" + SRC4[0], SRC4[1], 0, 0)
+SRC6_MAPPED2 = SRC6_MAPPED[:2]
+DIRS = ("out4", "out6", "in4", "in6", "in6m", "in6m2")
+# the statement demands the filter for everything that comes back; whether datagrams from a mapped source are tunnelled at
+# all is not promised (the unchanged tree drops them: "we have a separate endpoint for that"), so allowed ones may be dropped
+MAY_DROP = frozenset({"in6m", "in6m2"})
+DIR_KEY = {"out4": "out", "out6": "out", "in4": "in", "in6": "in", "in6m": "in-mapped", "in6m2": "in-mapped"}
 
 FILLERS = (0xA5, 0xC3, 0x96)             # rotated by VERIF_SEED; none of them starts or ends any shape
 MAXLEN = 1400
@@ -206,8 +214,12 @@ class Inner:
                 self.es.sendto(data, OUT6)
             elif direction == "in4":
                 self.t4.protocol.datagram_received(data, SRC4)
-            else:
+            elif direction == "in6":
                 self.t6.protocol.datagram_received(data, SRC6)
+            elif direction == "in6m":
+                self.t6.protocol.datagram_received(data, SRC6_MAPPED)
+            else:
+                self.t6.protocol.datagram_received(data, SRC6_MAPPED2)
         except Exception as e:  # noqa: BLE001
             self.raised = problem = f"raised {type(e).__name__}: {e}"
         s4, s6, wl = self.t4.sent, self.t6.sent, w.wire_log
@@ -275,18 +287,20 @@ def judge(inner: Inner, data: bytes, verdicts: tuple, direction: str, emitted: b
     want = ref.allowed(bt, ipv8, own, inner.flags)
     if emitted == want and not (emitted and problem):
         return
+    if direction in MAY_DROP and not emitted:
+        return
     cls = ref.shape_class(bt, ipv8, own)
     rp = {"layer": "inner", "flags": inner.flag_idx, "dir": direction, "data": data.hex()}
     side = "to the outside" if direction[0] == "o" else "into the tunnel"
     desc = (f"flags {flag_str(inner.flags)}, {direction}, payload {data[:40].hex()}{'..' if len(data) > 40 else ''} "
             f"(len {len(data)}; classifier: bt={bt} ipv8={ipv8}, own prefix={own})")
     if emitted and not want:
-        _note(viols, f"gate:{direction[:-1]}:emitted-forbidden:{cls}", f"forbidden packet went {side}: {desc}", rp)
+        _note(viols, f"gate:{DIR_KEY[direction]}:emitted-forbidden:{cls}", f"forbidden packet went {side}: {desc}", rp)
     elif want and not emitted:
-        _note(viols, f"gate:{direction[:-1]}:dropped-allowed:{cls}",
+        _note(viols, f"gate:{DIR_KEY[direction]}:dropped-allowed:{cls}",
               f"allowed packet did not go {side}: {desc} {problem}", rp)
     else:
-        _note(viols, f"gate:{direction[:-1]}:altered", f"{desc}: {problem}", rp)
+        _note(viols, f"gate:{DIR_KEY[direction]}:altered", f"{desc}: {problem}", rp)
 
 
 def check_gate(inner: Inner, data: bytes, verdicts: tuple, direction: str, viols: dict) -> bool:
@@ -334,19 +348,20 @@ def run_inner_items(chunk: list) -> list:
                 combos = [(a, b, c) for a in W23 for b in W8 for c in LAST]
                 gen = payloads(tmpl, ALL_LENGTHS if _THOROUGH else THRESH, b0,
                                (B1_FULL if _THOROUGH else B1_QUICK) if b0 is not None else (None,), combos)
-                dirs = DIRS         # both address families at the threshold lengths, IPv4 only at the lengths in between
+                dirs = DIRS         # everything at the threshold lengths; IPv4 and the mapped source at the lengths in between
             elif part == "plane":
                 gen = payloads(tmpl, PLANE_LENGTHS, b0, range(256), PLANE_COMBOS)
-                dirs = ("out4", "in4")
+                dirs = ("out4", "in4", "in6m")
             else:   # quick: the whole (byte0, byte1) plane at one length above every threshold, everything else neutral
                 gen = (p for x in range(b0, b0 + 32) for p in payloads(tmpl, (24,), x, range(256), PLANE_COMBOS[:1]))
-                dirs = ("out4", "in4")
+                dirs = ("out4", "in4", "in6m")
             seen: set = set()
             viols: dict = {}
             outcomes: set = set()
             n = evals = n_emitted = n_raised = 0
-            thresh, dirs4 = frozenset(THRESH), tuple(d for d in dirs if d.endswith("4"))
+            thresh, dirs4 = frozenset(THRESH), tuple(d for d in dirs if d in ("out4", "in4", "in6m"))
             observe, prefix, flags, allowed, ref_verdicts = inner.observe, inner.prefix, inner.flags, ref.allowed, ref.verdicts
+            may_drop = MAY_DROP
             for data in gen:
                 if data in seen:
                     continue
@@ -364,7 +379,7 @@ def run_inner_items(chunk: list) -> list:
                     emitted, problem = observe(data, d)
                     if emitted:
                         em += 1
-                    if emitted != want or problem:
+                    if (emitted != want or problem) and (emitted or d not in may_drop):
                         if inner.raised:
                             n_raised += 1
                         judge(inner, data, v, d, emitted, problem, viols)
@@ -655,9 +670,28 @@ def run_outer(case: tuple, seed: int) -> tuple[list, tuple]:
                 key = f"e2e:in:dropped-allowed:{cls}" if len(got) < len(expect_got) else "e2e:in:altered"
                 viol.append((key, f"{desc}: injected {[(s, len(d)) for s, d in expect_got]} from outside, the originator "
                                   f"received {[(s, d.hex()[:24] if isinstance(d, bytes) else d) for s, d in got]}"))
+        n_got = len(got)
+        # ... and from an IPv4 host that hit the dual-stack IPv6 socket (mapped source, both tuple forms): nothing forbidden
+        # may come back; whether allowed datagrams of such a source are tunnelled is not promised
+        n_mapped = 0
+        for t in list(w.loop.transports):
+            if t.closed or t.local_addr[0] != "::":
+                continue
+            for src in (SRC6_MAPPED, SRC6_MAPPED2):
+                got.clear()
+                t.inject(data, src)
+                w.flush()
+                n_mapped += len(got)
+                if got and not allowed:
+                    viol.append((f"e2e:in-mapped:emitted-forbidden:{cls}",
+                                 f"{desc}: forbidden packet from the IPv4-mapped source {src} on the IPv6 socket reached the "
+                                 f"originator: {[(s, d.hex()[:24] if isinstance(d, bytes) else d) for s, d in got]}"))
+                elif got and [d for _, d in got] != [data]:
+                    viol.append(("e2e:in-mapped:altered", f"{desc}: injected {len(data)} bytes from {src}, the originator "
+                                 f"received {[(s, d.hex()[:24] if isinstance(d, bytes) else d) for s, d in got]}"))
         obs = ("ran", fi, hops, pname, dname, sname, cls, allowed, opened_by_a, len(w.loop.transports),
-               tuple(sorted((f, len(d), a) for f, d, a in em)), n_in, len(got), len(w.loop.exceptions),
-               None if rebound is None else rebound[2])
+               tuple(sorted((f, len(d), a) for f, d, a in em)), n_in, n_got, len(w.loop.exceptions),
+               None if rebound is None else rebound[2], n_mapped)
         return viol, obs
     finally:
         w.close()
@@ -806,10 +840,10 @@ def run_config(case: tuple, seed: int) -> tuple[list, tuple]:
                 data = pl[pname]
                 v = classify(data)
                 want = ref.allowed(v[3], v[4], data[:22] == inner.prefix, policy)
-                for d in ("out4", "in4"):
+                for d in ("out4", "in4", "in6m"):
                     emitted, problem = inner.observe(data, d)
                     row.append(emitted)
-                    if emitted != want or (emitted and problem):
+                    if (emitted != want or (emitted and problem)) and (emitted or d not in MAY_DROP):
                         kind = "emitted-forbidden" if emitted and not want else \
                             "dropped-allowed" if want and not emitted else "altered"
                         viol.append((f"config:{route}:{kind}", f"{desc}: {pname} ({data[:24].hex()}..) {d}: emitted={emitted}, "
@@ -1007,7 +1041,7 @@ def run(ctx: core.Ctx) -> core.Report:
 
     emitted_classes = [o for o in outcomes if o[4]]
     cov = {
-        "evaluations": inner_evals + len(cases) + len(ccases) * 2 * len(CONFIG_PAYLOADS) * 2
+        "evaluations": inner_evals + len(cases) + len(ccases) * 2 * len(CONFIG_PAYLOADS) * 3
         + len(wcases) * len(WINDOW_BATCH_A + WINDOW_BATCH_B),
         "distinct_nontrivial": len(outcomes) + len(outer_obs) + len(extra_obs["config"]) + len(extra_obs["window"]),
         "rule": "one evaluation = one packet driven through the real TunnelExitSocket of a live exit node under one flag set "
@@ -1031,6 +1065,9 @@ def run(ctx: core.Ctx) -> core.Report:
             "emitted_outcome_classes": len(emitted_classes),
             "lengths_grid": list(ALL_LENGTHS if ctx.thorough else THRESH),
             "lengths_plane": list(PLANE_LENGTHS) if ctx.thorough else [24],
+            "directions": {"grid": list(DIRS), "grid_between_threshold_lengths": ["out4", "in4", "in6m"],
+                           "plane": ["out4", "in4", "in6m"]},
+            "inbound_sources": {"in4": list(SRC4), "in6": list(SRC6), "in6m": list(SRC6_MAPPED), "in6m2": list(SRC6_MAPPED2)},
             "byte0_grid": list(B0_FULL if ctx.thorough else B0_QUICK),
             "byte1_grid": list(B1_FULL if ctx.thorough else B1_QUICK),
             "byte0_byte1_plane": "all 65536 pairs",
@@ -1053,7 +1090,7 @@ def run(ctx: core.Ctx) -> core.Report:
             "configurations": "ordered pairs over the 8 flag sets + 'peer_flags not mentioned' (9 x 9), two nodes built in "
                               "that order in one process, each judged by its own configuration",
             "payloads": list(CONFIG_PAYLOADS),
-            "directions": ["out4", "in4"],
+            "directions": ["out4", "in4", "in6m"],
             "distinct_observations": len(extra_obs["config"]),
         },
         "flag_change_window": {
@@ -1079,6 +1116,8 @@ def run(ctx: core.Ctx) -> core.Report:
         "'::' port 0 and 0.0.0.0 with a non-zero port are not null addresses for this check (the statement names 0.0.0.0:0)",
         "exceptions raised by sendto/datagram_received are not violations by themselves (C03 covers the receive path)",
         "crypto primitives trusted; PythonCryptoEndpoint only",
+        "datagrams from an IPv4-mapped source (::ffff:a.b.c.d) on the IPv6 socket: only 'nothing forbidden is tunnelled back' is "
+        "demanded, allowed ones may be dropped or delivered (the statement does not promise delivery; the unchanged tree drops)",
         "the circuit's previous hop is the address its create came from; a node's policy is computed from the flags its own "
         "operator configured (not mentioned = the documented default RELAY+SPEED_TEST); an emission is judged by the flags "
         "in force in the loop iteration in which it leaves; after the socket is open the source of data cells is not judged "
